@@ -4,12 +4,14 @@ package bundle
 
 import (
 	"bytes"
+	"crypto/x509"
 	"net/http"
 	"net/url"
 	"strings"
 
 	"github.com/WICG/webpackage/go/bundle/version"
 	"github.com/WICG/webpackage/go/internal/vh"
+	"github.com/WICG/webpackage/go/signedexchange/certurl"
 )
 
 var c03URLs = []string{"https://b/", "https://a/zz", "https://a:8443/x%20y?q=1"}
@@ -121,6 +123,7 @@ func VH_C03_C04_RoundTrip() {
 	vh.Assert(ok, "output is a well-formed canonical bundle (independent walker)")
 	if ok {
 		vh.Assert(secs[0].name == "index", "index section first")
+		vh.Assert(refIndexDelimitsResponses(out, secs, b1), "every index entry delimits exactly one [headers, payload] item inside the responses section")
 	}
 	back, rerr := Read(bytes.NewReader(out))
 	vh.Assert(rerr == nil, "reader accepts the writer's output")
@@ -181,4 +184,113 @@ func VH_C03_StatusAllValues() {
 		return
 	}
 	vh.Assert(len(back.Exchanges) == 1 && back.Exchanges[0].Response.Status == st && bytes.Equal(back.Exchanges[0].Response.Body, body), "status and body preserved")
+}
+
+// VH_C03_Variants: b1 bundle, one URL with a 2x2 Variants grid (Accept-Language: en, ja) x (Accept-Encoding: gzip,
+// br); the four representations (symbolic one-byte bodies) are supplied in EVERY permutation (24); also with one
+// representation missing (incomplete coverage) or one Variant-Key used twice (overlap):
+// complete sets are written and come back in row-major order of the Variants axes with the right bodies;
+// incomplete or overlapping coverage is refused at write time.
+func VH_C03_Variants() {
+	vh.MustReach("complete", "incomplete", "overlap")
+	keys := []string{"en;gzip", "en;br", "ja;gzip", "ja;br"} // row-major order
+	// permutation of 4 by successive choice
+	rem := []int{0, 1, 2, 3}
+	var perm []int
+	for len(rem) > 0 {
+		c := vh.Choose(len(rem))
+		perm = append(perm, rem[c])
+		rem = append(rem[:c:c], rem[c+1:]...)
+	}
+	mode := vh.Choose(3) // 0 complete, 1 incomplete (drop last supplied), 2 overlap (last supplied repeats the first's key)
+	bodies := vh.Bytes("bodies", 4)
+	u := c03MustURL("https://a/v")
+	b := &Bundle{Version: "b1", PrimaryURL: u}
+	for j, ki := range perm {
+		if mode == 1 && j == 3 {
+			break
+		}
+		key := keys[ki]
+		if mode == 2 && j == 3 {
+			key = keys[perm[0]]
+		}
+		h := http.Header{}
+		h.Set("Variants", "Accept-Language;en;ja, Accept-Encoding;gzip;br")
+		h.Set("Variant-Key", key)
+		b.Exchanges = append(b.Exchanges, &Exchange{Request{URL: u}, Response{Status: 200, Header: h, Body: []byte{bodies[ki]}}})
+	}
+	var w vh.Sink
+	_, err := b.WriteTo(&w)
+	switch mode {
+	case 1:
+		vh.Reach("incomplete")
+		vh.Assert(err != nil, "incomplete variant coverage is refused at write time")
+		return
+	case 2:
+		vh.Reach("overlap")
+		vh.Assert(err != nil, "overlapping variant coverage is refused at write time")
+		return
+	}
+	vh.Reach("complete")
+	vh.Assert(err == nil, "complete variant coverage is written")
+	if err != nil {
+		return
+	}
+	secs, ok := refWellFormedBundle(w.B, true)
+	vh.Assert(ok && refIndexDelimitsResponses(w.B, secs, true), "output is a well-formed canonical bundle whose index entries delimit the responses")
+	back, rerr := Read(bytes.NewReader(w.B))
+	vh.Assert(rerr == nil && back != nil && len(back.Exchanges) == 4, "all four representations come back")
+	if rerr != nil || len(back.Exchanges) != 4 {
+		return
+	}
+	for i := 0; i < 4; i++ {
+		e := back.Exchanges[i]
+		vh.Assert(e.Response.Header.Get("Variant-Key") == keys[i], "representations come back in row-major order of the Variants axes")
+		vh.Assert(len(e.Response.Body) == 1 && e.Response.Body[0] == bodies[i], "each representation keeps its own body")
+	}
+}
+
+// VH_C03_SignaturesSection: b2 bundle with a signatures section of 1..2 authorities (real DER certificates, the
+// first with symbolic OCSP/SCT bytes) and 0..2 vouched subsets (SYMBOLIC 64-bit authority index, symbolic sig and
+// signed bytes): write -> read returns the identical section, and the output stays well-formed.
+func VH_C03_SignaturesSection() {
+	c0, err0 := x509.ParseCertificate(realDER)
+	c1, err1 := x509.ParseCertificate(realDER2)
+	vh.Assume(err0 == nil && err1 == nil)
+	sigs := &Signatures{}
+	sigs.Authorities = append(sigs.Authorities, &certurl.AugmentedCertificate{Cert: c0, OCSPResponse: vh.Bytes("ocsp", 2), SCTList: vh.Bytes("sct", 1)})
+	if vh.Choose(2) == 1 {
+		sigs.Authorities = append(sigs.Authorities, &certurl.AugmentedCertificate{Cert: c1})
+	}
+	nvs := vh.Choose(3)
+	for i := 0; i < nvs; i++ {
+		t := []string{"vs0", "vs1"}[i]
+		sigs.VouchedSubsets = append(sigs.VouchedSubsets, &VouchedSubset{Authority: vh.Uint64(t + ".auth"), Sig: vh.Bytes(t+".sig", 3), Signed: vh.Bytes(t+".signed", 4)})
+	}
+	b := &Bundle{Version: "b2", Signatures: sigs, Exchanges: []*Exchange{c03Exchange(1, "https://a/")}}
+	var w vh.Sink
+	_, err := b.WriteTo(&w)
+	vh.Assert(err == nil, "writer accepts")
+	if err != nil {
+		return
+	}
+	secs, ok := refWellFormedBundle(w.B, false)
+	vh.Assert(ok && refIndexDelimitsResponses(w.B, secs, false), "well-formed canonical bundle")
+	back, rerr := Read(bytes.NewReader(w.B))
+	vh.Assert(rerr == nil, "reader accepts")
+	if rerr != nil {
+		return
+	}
+	vh.Assert(back.Signatures != nil && len(back.Signatures.Authorities) == len(sigs.Authorities) && len(back.Signatures.VouchedSubsets) == nvs, "same shape")
+	if back.Signatures == nil || len(back.Signatures.Authorities) != len(sigs.Authorities) || len(back.Signatures.VouchedSubsets) != nvs {
+		return
+	}
+	for i, a := range sigs.Authorities {
+		g := back.Signatures.Authorities[i]
+		vh.Assert(bytes.Equal(g.Cert.Raw, a.Cert.Raw) && bytes.Equal(g.OCSPResponse, a.OCSPResponse) && bytes.Equal(g.SCTList, a.SCTList), "authority preserved")
+	}
+	for i, v := range sigs.VouchedSubsets {
+		g := back.Signatures.VouchedSubsets[i]
+		vh.Assert(g.Authority == v.Authority && bytes.Equal(g.Sig, v.Sig) && bytes.Equal(g.Signed, v.Signed), "vouched subset preserved (authority index, sig, signed)")
+	}
 }
